@@ -25,6 +25,7 @@ func Unsupported(why string)               {}
 func Region(name string, c bool)           {}
 func Symbolic() bool                       { return true }
 func OnIdle(f func())                      {}
+func SetIdleDelay(ms int)                  {}
 func ObserveU64(label string, v uint64)    {}
 func ObserveBool(label string, v bool)     {}
 func ObserveBytes(label string, v []byte)  {}
